@@ -337,7 +337,7 @@ _add(
          "and compare every output and the complete final state (all state-dict entries incl. extras and non-persistent "
          "buffers) exactly. One evaluation = one checkpoint position; distinct = (layer, trainer, reducer, classifier, "
          "target kind, position class, delay, in-place).",
-    required=["cloned_targets", "checkpoint_positions_checked", "restored_steps_compared", "final_states_compared", "phase_mismatch_probes", "checkpoints_with_pending_updates", "checkpoints_of_histories_grown_by_setters", "checkpoints_after_in_place_changes_of_trainer_buffers", "checkpoints_with_a_monitor_reading_state_before_the_step"],
+    required=["cloned_targets", "checkpoint_positions_checked", "restored_steps_compared", "final_states_compared", "phase_mismatch_probes", "checkpoints_with_pending_updates", "checkpoints_of_histories_grown_by_setters", "checkpoints_after_in_place_changes_of_trainer_buffers", "checkpoints_with_a_monitor_reading_state_before_the_step", "checkpoints_with_a_difference_monitor"],
     floor={"quick": 20, "thorough": 120},
     shards={"quick": 8, "thorough": 32},
     exhaustive={"quick": ["every checkpoint position k in 0..T of each generated run"], "thorough": ["every checkpoint position k in 0..T of each generated run"]},
